@@ -31,7 +31,7 @@ def build_catalogue(seed=0):
             cat.append({"fn": "readout", "n": n, "name": name, "strings": strs, "format": fmt})
             if j < 2:
                 circ = [["h", [q]] for q in range(n)] + [["cz", list(e)] for e in lc.edges_from_gid(n, info["graph"])] + info["layer"]
-                cat.append({"fn": "compress", "n": n, "name": name, "ops": circ})
+                cat.append({"fn": "compress", "n": n, "name": name, "ops": circ, "meta": {"note": "user circuit"} if j == 1 else None})
             if j == 0:
                 cat.append({"fn": "classify", "n": n, "strings": strs})
         # graph input (aliasing of the graph's adjacency matrix) and measurement circuits
@@ -41,8 +41,12 @@ def build_catalogue(seed=0):
         qubits = rng.sample(range(N), n)
         prep_ops = [[g, list(q)] for g, q in members.random_clifford_ops(N, rng, 4)]
         gens, _ = members.member(n, rng.choice(reps), rng)
-        cat.append({"fn": "tomo", "n": n, "name": name, "N": N, "qubits": qubits, "prep": prep_ops})
-        cat.append({"fn": "stabmeas", "n": n, "name": name, "N": N, "qubits": qubits, "prep": prep_ops, "strings": sweep.strings(gens, n)})
+        meta = {"experiment": f"run-{n}-{name}", "shots": 1000} if (len(cat) % 2 == 0) else None
+        cat.append({"fn": "tomo", "n": n, "name": name, "N": N, "qubits": qubits, "prep": prep_ops, "meta": meta})
+        cat.append({"fn": "stabmeas", "n": n, "name": name, "N": N, "qubits": qubits, "prep": prep_ops, "strings": sweep.strings(gens, n), "meta": meta})
+        if meta is not None:    # second stabilizer on the same kind of circuit: earlier results must not change
+            g2, _ = members.member(n, rng.choice(reps), rng)
+            cat.append({"fn": "stabmeas", "n": n, "name": name, "N": N, "qubits": qubits, "prep": prep_ops, "strings": sweep.strings(g2, n), "meta": meta})
     for n in range(2, 7):
         for i in sorted({0, kcount[n] - 1, rng.randrange(kcount[n]), rng.randrange(kcount[n]), rng.randrange(kcount[n])}):
             cat.append({"fn": "class_graph", "n": n, "id": i})
@@ -80,9 +84,9 @@ def make_inputs(spec):
         inp["graph"] = L.Graph(a)
         inp["stab"] = L.Stabilizer(inp["graph"])
     if fn == "compress":
-        inp["circuit"] = libif.build_circuit(spec["n"], [(o[0], tuple(o[1])) for o in spec["ops"]])
+        inp["circuit"] = libif.build_circuit(spec["n"], [(o[0], tuple(o[1])) for o in spec["ops"]], metadata=spec.get("meta"))
     if fn in ("tomo", "stabmeas"):
-        inp["circuit"] = libif.build_circuit(spec["N"], [(o[0], tuple(o[1])) for o in spec["prep"]])
+        inp["circuit"] = libif.build_circuit(spec["N"], [(o[0], tuple(o[1])) for o in spec["prep"]], metadata=spec.get("meta"))
         inp["qubits"] = list(spec["qubits"])
     return inp
 
